@@ -533,6 +533,11 @@ Error BaseBuilder::bind(const Label& label) {
   LabelNode* node;
   ASMJIT_PROPAGATE(label_node_of(Out(node), label));
 
+  // The node of a label is unique - linking it a second time would corrupt the node list.
+  if (ASMJIT_UNLIKELY(node->is_active())) {
+    return report_error(make_error(Error::kLabelAlreadyBound));
+  }
+
   add_node(node);
   return Error::kOk;
 }
